@@ -32,7 +32,7 @@ class Case(object):
         self.fnames = ['f%d' % i for i in range(1, k + 1)]
         self.gnames = ['g%d' % j for j in range(1, m)]
         # evolutions: one per f, one per g that the marked prefix already covers, then the hand-over
-        self.evo_fields = self.fnames + self.gnames[:s - 1]
+        self.evo_fields = self.fnames + self.gnames[:max(s - 1, 0)]
 
     def migrations(self):
         from django.db import migrations, models
@@ -112,13 +112,14 @@ def run(ctx):
     evorig.setup()
     quick = ctx.tier == 'quick'
     ctx.rule = ('apps with k in 0..2 evolutions then MoveToDjangoMigrations(mark_applied = prefix of length s) and a chain '
-                'of m in 1..3 in-memory migrations, every s in 1..m, start states {fresh database, database at each '
+                'of m in 1..3 in-memory migrations, every s in 0..m, start states {fresh database, database at each '
                 'earlier evolution, database already on migrations}, alone and next to an evolution-only app; '
                 'non-trivial = every case (exhaustive over these parameters in both tiers)')
-    combos = [(k, m, s, o) for k in (0, 1, 2) for m in (1, 2, 3) for s in range(1, m + 1) for o in (False, True)]
+    combos = [(k, m, s, o) for k in (0, 1, 2) for m in (1, 2, 3) for s in range(0, m + 1) for o in (False, True)]
     ctx.rng.shuffle(combos)
     if quick:
-        combos = combos[:10]
+        # a sample, with the empty prefix (nothing named as already applied) always in it
+        combos = [c for c in combos if c[2] == 0][:3] + [c for c in combos if c[2] != 0][:9]
     else:
         ctx.exhaustive = True
     for (k, m, s, other) in combos:
@@ -209,12 +210,32 @@ def run(ctx):
                                        'fresh': start == 'fresh'}])[0]
                 want_exec = [names[i] for i in out['execute']]
                 want_rec = sorted(names[i] for i in out['recorded_after'])
-                if start == 'fresh' and rec.count(names[0]) == 2:
-                    want_rec = sorted(want_rec + [names[0]])      # finding F44, see below
+                if (start == 'fresh' or s == 0) and rec.count(names[0]) == 2 and want_rec.count(names[0]) == 1:
+                    want_rec = sorted(want_rec + [names[0]])      # findings F44 / F62, see below
                 ctx.corr_case('handover', executed == want_exec and sorted(rec) == want_rec, case=rep,
                               model={'execute': want_exec, 'recorded': want_rec},
                               impl={'execute': executed, 'recorded': sorted(rec)})
             # ---- oracle ----------------------------------------------------------------------
+            # every migration that is neither named as covered nor recorded before the run must be executed
+            must_run = names if start == 'fresh' else [x for x in names[s:] if x not in pre_recorded]
+            not_run = [x for x in must_run if x not in executed]
+            if not_run:
+                ctx.fail(None, 'migrations %s were not executed although they are neither named as already covered '
+                         'nor recorded' % not_run, rep)
+            if s == 0 and start != 'fresh':
+                # the empty prefix: finding F62 (the initial migration is treated as a pre-stage migration)
+                dup0 = sorted(rec) == sorted(names + [names[0]])
+                early = bool(applied_evo_idx and first_mig_idx and max(applied_evo_idx) > min(first_mig_idx))
+                bk0 = evorig.bookkeeping()
+                a0 = bk0['sig'].get_app_sig('vapp') if bk0['sig'] is not None else None
+                sig_ok = a0 is not None and sorted(set(a0.applied_migrations or [])) == sorted(set(rec))
+                empty_after_interrupt = (start.startswith('interrupted') and a0 is not None and
+                                         not (a0.applied_migrations or []))
+                if (dup0 or early or empty_after_interrupt) and sorted(set(rec)) == sorted(names) and \
+                        (sig_ok or empty_after_interrupt) and executed == [x for x in names if x in executed]:
+                    ctx.fail('F62', 'with an empty mark_applied the initial migration is handled as a pre-stage migration: '
+                             'recorded %s, ran before the evolutions: %s' % (rec, early), rep)
+                    continue
             if applied_evo_idx and first_mig_idx and max(applied_evo_idx) > min(first_mig_idx):
                 ctx.fail(None, 'a migration of the app ran before its pending evolutions were applied', rep)
             dup_initial_only = (start == 'fresh' and sorted(rec) == sorted(names + [names[0]]))
